@@ -13,7 +13,10 @@ spec/Future/FutureTrace.tla   trace validation of recorded histories (calls, res
 2. Schedules covering every transition of each graph + random complete paths are replayed on the real vtable
    functions under the cooperative scheduler; step sequence, results and callback counts are compared (divergences).
 3. Every interleaving of small scenarios / seeded random schedules of the others are run on the code by the harness.
-4. Free-running 4-16 thread stress with 1-4 shapes.
+4. Free-running 4-16 thread stress with 1-4 shapes; countable futures also in bursts: 64 futures per round with count =
+   number of threads (4-6 quick, 2-8 thorough), every thread sets each future once after a barrier so that the final sets overlap (a
+   decision taken on a plain re-read of the counter after the atomic decrement cannot be split by the cooperative
+   scheduler: the re-read follows the atomic in the same step), thousands of rounds, one history per future.
 5. All recorded histories are validated by TLC against FutureTrace (the verdict).
 """
 import json
@@ -32,7 +35,9 @@ META = {
             "parsec_future_set/get/is_ready/get_or_trigger, and each recorded history (calls, results, every callback "
             "invocation, cleanup at destruction) is validated by TLC against FutureTrace.tla.",
     "note": "Bounded: 3 threads x 2-3 operations, 3-4 shapes for the model-driven and exhaustive parts, 4-16 threads x "
-            "4-8 operations sampled by stress; datacopy fulfilment both synchronous (set inside the callback) and "
+            "4-8 operations sampled by stress, plus bursts of overlapping final sets on countable futures (64 futures per "
+            "round, count = 4-6 (thorough 2-8) setter threads released by a barrier, thousands of rounds, histories deduplicated up to "
+            "thread renaming); datacopy fulfilment both synchronous (set inside the callback) and "
             "asynchronous (set later by another thread). Values passed to set are non-NULL. x86-64 TSO; trusted: TLC, "
             "vsched, ndjson recorder. Hook: one spin yield point in parsec_base_future_get's busy-wait.",
     "technique": "TLA+ refinement (TLC) + schedule replay on real code + trace validation (TLC)",
@@ -311,18 +316,41 @@ def run(ctx):
         for e in exs:
             executions.append(("stress%d" % i, "stress", e))
     ctx.extra["stress_histories"] = nstress
+    # countable futures in bursts: every thread sets each of 64 fresh futures once per round, all released by a barrier
+    # (the last sets of a future overlap); one history per future, thread ids renamed by first appearance and
+    # histories already written only counted (by the harness, exact text), all distinct ones go to FutureTrace
+    nburst = 0
+    for i, (nt, rounds) in enumerate([(4, 4000), (ctx.rng.randint(5, 6), 800)] if ctx.quick else
+                                     [(4, 40000), (5, 20000), (6, 8000), (8, 2000), (ctx.rng.randint(2, 3), 20000)]):
+        sc = {"name": "burst%d" % i, "kind": "count", "count": nt, "threads": [["set:1"]] * nt}
+        scf = os.path.join(ctx.scratch, "burst%d.scn" % i)
+        scenario_file(sc, scf)
+        tr = os.path.join(ctx.scratch, "burst%d.trace" % i)
+        meta = os.path.join(ctx.scratch, "burst%d.meta" % i)
+        exs, metas = run_harness(ctx, exe, ["burst", scf, str(rounds), tr, meta, "64", "40" if ctx.quick else "240"], tr, meta,
+                                 timeout=900)
+        m = metas[-1] if metas else {}
+        if not m.get("futures"):
+            raise tlc.TLCError("burst stress produced no history: %r" % (m,))
+        nburst += m["futures"]
+        ctx.extra.setdefault("burst_countable", []).append(m)
+        if i == 0 and exs:
+            ctx.sample({"burst_history_one_countable_future": exs[len(exs) // 2]})
+        for e in exs:
+            executions.append(("burst%d" % i, "burst", e))
+    ctx.extra["burst_countable_futures_run"] = nburst
     phase("stress")
 
     # ---- 5. verdict: trace validation -------------------------------------------------------------------------------
-    ctx.evaluations = len(executions)
+    ctx.evaluations = len(executions) + nburst - sum(1 for _, k, _ in executions if k == "burst")
     distinct, mult = tracecheck.dedupe([e for _, _, e in executions])
-    ctx.extra["executions_run"] = len(executions)
+    ctx.extra["executions_run"] = ctx.evaluations
     ctx.extra["distinct_histories"] = len(distinct)
     ctx.extra["schedules_from_tlc"] = total_sched
     if distinct:
         ctx.sample({"history": distinct[len(distinct) // 2]})
     fails = ctx.validate("Future", "FutureTrace", "FutureTrace.cfg", distinct, batch=600, timeout=1500)
-    ctx.traces = len(executions)
+    ctx.traces = ctx.evaluations
     phase("validate")
     for f in fails:
         ctx.violation("history of the real futures is not a behaviour of Future.tla (value seen by a reader, readiness, "
